@@ -122,7 +122,7 @@ def run(ctx):
         f2 = ctx.fn(q)
         ev2 = ctx.evaluator(opaque=OPAQUE - {q})
         s2 = ev2.run(f2)
-        for name, args, kw, node, guard, _facts in s2.calls:
+        for name, args, kw, node, guard, _facts, _iters in s2.calls:
             if not name.startswith("method:"):
                 continue
             n_calls += 1
